@@ -98,7 +98,7 @@ class CallMixin:  # pylint:disable=too-many-public-methods
         if key not in self.attr_memo:
             from .fdai import Frame
 
-            val: Any = FuncVal(fn=fn, self_obj=None, env=func.env, module=func.module, raw=True)
+            val: Any = FuncVal(fn=fn, self_obj=None, env=func.env, module=func.module, raw=True, defaults=func.defaults)
             frame = Frame(None, fn.module, func.env, set())  # decorators of a nested function see the enclosing variables
             for d in reversed(fn.node.decorator_list):
                 name = dotted(d.func if isinstance(d, ast.Call) else d) or norm(d)
@@ -110,7 +110,8 @@ class CallMixin:  # pylint:disable=too-many-public-methods
         if func.self_obj is None:
             return unbound
         if isinstance(unbound, FuncVal) and unbound.self_obj is None:
-            return FuncVal(fn=unbound.fn, self_obj=func.self_obj, env=unbound.env, lambda_node=unbound.lambda_node, module=unbound.module, raw=unbound.raw)
+            return FuncVal(fn=unbound.fn, self_obj=func.self_obj, env=unbound.env, lambda_node=unbound.lambda_node, module=unbound.module, raw=unbound.raw,
+                           defaults=unbound.defaults)
         return Obj("functools.partial", {"func": unbound, "args": [func.self_obj], "kwargs": {}})
 
     def check_decorators(self, fn: FuncDef) -> None:
@@ -707,6 +708,20 @@ class CallMixin:  # pylint:disable=too-many-public-methods
                 return r[args[0]]
             except (IndexError, TypeError):
                 self.raise_("IndexError", "index out of range")
+        if a == "__setitem__" and isinstance(r, (dict, list)) and len(args) == 2:
+            if isinstance(r, dict):
+                r[self.hashable(args[0], node, frame)] = args[1]
+            else:
+                try:
+                    r[args[0]] = args[1]
+                except (IndexError, TypeError) as err_:
+                    self.raise_(type(err_).__name__, str(err_))
+            return None
+        if a == "__delitem__" and isinstance(r, dict) and len(args) == 1:
+            if args[0] not in r:
+                raise PyRaise(self.exc("builtins.KeyError", args[0]))
+            del r[args[0]]
+            return None
         if a == "__contains__" and isinstance(r, (list, tuple, dict, set, str)) and len(args) == 1:
             return self.contains(r, args[0], node, frame)
         if a == "__len__" and isinstance(r, (list, tuple, dict, set, str)):
